@@ -283,3 +283,72 @@ def replay(ctx, path):
             print('--- source'); print(scripts[tid]['src'])
             print('verdict', tid, sorted(v['bad'])[:40])
     return ctx.finish()
+
+
+SELFTEST_SRC = '''"é"; ä = [ö async for (ö) in (ü) if (ß)]
+z = f((a), b) + c is  not d
+with (a) as b: pass
+def g(x=(1)): return lambda  y : y
+'''
+
+
+def selftest(ctx):
+    """Binding demonstration: an accepted trace is corrupted in one recorded field at a time; TLC must reject exactly
+    then and name the clause that the field belongs to."""
+    import copy
+    from harness import c06_locs as L
+    rng = random.Random(7)
+    base = L.snapshot_trace(1, SELFTEST_SRC, rng, 10, from_inner=0, max_spans=10, max_gaps=5)
+    if base is None:
+        raise common.Machinery('selftest source outside the domain')
+
+    def node(tr, kind, nth=0):
+        return [n for n in tr['nodes'] if n['k'] == kind][nth]
+
+    def shift_loc(tr):
+        n = node(tr, 'comprehension'); n['loc'][3] += 1          # one column too far (into the closing parenthesis)
+
+    def byte_attr(tr):
+        n = node(tr, 'ListComp'); n['at'][1] -= 1                # byte col_offset as if "é" and ä were one byte each
+
+    def pars_n(tr):
+        n = [x for x in tr['nodes'] if x['pT'] and x['pT'][4] == 1][0]; n['pT'][4] = 0
+
+    def op_loc(tr):
+        n = node(tr, 'IsNot'); n['loc'][3] -= 1                  # `is  no`
+
+    def args_loc(tr):
+        n = [x for x in tr['nodes'] if x['k'] == 'arguments' and tr['nodes'][x['par'] - 1]['k'] == 'Lambda'][0]
+        n['loc'][1] -= 1                                         # includes the white space the delimiter owns
+
+    def bloc(tr):
+        n = node(tr, 'With'); n['bloc'][3] += 1
+
+    def find_in(tr):
+        q = [s for s in tr['steps'] if s['ev'] == 'find' and s['fin'] > 1][0]; q['fin'] -= 1
+
+    def find_contains(tr):
+        q = [s for s in tr['steps'] if s['ev'] == 'find' and s['cT'] > 1 and s['r'][:2] != s['r'][2:]][0]
+        q['cT'] = tr['nodes'][q['cT'] - 1]['par']                # the parent instead of the lowest containing node
+
+    cases = [('accepted', None, None), ('loc of a comprehension', shift_loc, 'Computed.comprehension'),
+             ('byte col_offset', byte_attr, 'ByteCharAgree.attrs'), ('pars count', pars_n, 'Pars'),
+             ('operator loc', op_loc, 'OpText'), ('lambda arguments loc', args_loc, 'Computed.arguments'),
+             ('bloc', bloc, 'Bloc'), ('find_in_loc answer', find_in, 'Find.in'),
+             ('find_contains_loc answer', find_contains, 'Find.contains')]
+    traces = []
+    for i, (name, fn, clause) in enumerate(cases):
+        tr = copy.deepcopy(base)
+        tr['id'] = i + 1
+        if fn:
+            fn(tr)
+        traces.append(tr)
+    verd = ctx.validate(L.batch(traces), module='LocTrace', heap='3g')
+    known = {'top-returns-lowest-exact', 'decorator-region:skipped'}
+    ok = True
+    for i, (name, fn, clause) in enumerate(cases):
+        bad = sorted({c for (_, c, k) in verd[i + 1]['bad'] if k not in known})
+        good = (bad == []) if clause is None else (clause in bad)
+        ok &= good
+        print(f'selftest {"ok " if good else "BAD"} corrupt {name!r}: expected {clause}, TLC rejected {bad}')
+    return 0 if ok else 2
